@@ -1,0 +1,24 @@
+//go:build verif
+
+package parser
+
+// Contracts for the verification machinery in /verif (comment-only; no executable code).
+//
+// refActType/refActParam/refGoto: the LALR(1)+precedence table of the documented EBNF grammar,
+// built by an independent reference constructor and renumbered into the code's states through a
+// checked alignment certificate (generated on every run into /verif/specs/gen/ebnf_lalr.gvc).
+
+//@ import "github.com/moorara/algo/parser/lr"
+//@ import "github.com/moorara/algo/grammar"
+
+//@ func ACTION(s int, a grammar.Terminal) (lr.ActionType, int, error)
+//@   split s 0 56
+//@   ensures result0 == refActType(s, a) && result1 == refActParam(s, a)
+//@   ensures (result2 != nil) == (refActType(s, a) == lr.ERROR)
+//@   ensures result0 == lr.SHIFT ==> 0 <= result1 && result1 <= refMaxState()
+//@   ensures result0 == lr.REDUCE ==> 0 <= result1 && result1 < prodCount()
+
+//@ func GOTO(s int, A grammar.NonTerminal) int
+//@   split s 0 56
+//@   ensures result == refGoto(s, A)
+//@   ensures result >= -1 && result <= refMaxState()
